@@ -32,7 +32,7 @@ ASSUMPTIONS = [
     "MalformedSignature, UnexpectedDER; verification: True / BadSignatureError / BadDigestError; ECDH loaders: the key "
     "loaders' set + InvalidCurveError (NoCurveError for load_private_key_bytes without a curve); an ECDH object without a "
     "curve given public-key BYTES is outside the property (AttributeError in code and model)",
-    "verify theorems: the point layer is correct (C06/C07 through GroupInterface; named rows: p, n prime) and the key "
+    "verify theorems: the point layer is correct (C06/C07 through GroupInterface; named rows: p, n proved prime from kernel-checked certificates, Props/NamedPrimes) and the key "
     "object denotes an element of <G>; digests are non-empty",
     "generic theorems: square_root_mod_prime returns or raises SquareRootError; Q = dG is a point with coordinates in "
     "[0, p-1] for 1 <= d < n; base64.b64decode raises only binascii.Error. On the composed model (all_loaders_total_model) "
